@@ -11,7 +11,7 @@ import (
 
 func init() {
 	register(&propDef{ID: "C07", Run: runC07,
-		Explain:    "Structural necessary conditions of 'received/rport record the true source when enabled', decided on SSA value flow and CFG of /repo: (1) wiring: the backward value-flow closure of every store into RawMessage.ReceivedSupport (through transports, constructors, closures, parameters) has exactly one root, the YAML field tagged no-received, reached through exactly one negation on every path; the field is exported and tagged so YAML can set it; (2) the stamp call in handleRawMessage is guarded exactly by IsRequest and ReceivedSupport, executes once, takes PeerAddr/PeerPort of the same raw message, and handleRawMessage precedes dispatch in the loop; (3) peer address/port given to NewRawMessage derive from the socket layer (ReadFromUDP address / conn.RemoteAddr) and never from message content; (4) stamp content: entry 0 of the top Via, received always set, rport only when present, SetParam is replace-in-place-or-append; (5) the response hop prefers received/rport (shared with C02).",
+		Explain:    "Structural necessary conditions of 'received/rport record the true source when enabled', decided on SSA value flow and CFG of /repo: (1) wiring: the backward value-flow closure of every store into RawMessage.ReceivedSupport (through transports, constructors, closures, parameters) has exactly one root, the YAML field tagged no-received, reached through exactly one negation on every path; the field is exported and tagged so YAML can set it; (2) the stamp call in handleRawMessage is guarded exactly by IsRequest and ReceivedSupport, executes once, takes PeerAddr/PeerPort of the same raw message, and handleRawMessage precedes dispatch in the loop; (3) peer address/port given to NewRawMessage derive from the socket layer (ReadFromUDP address / conn.RemoteAddr) and never from message content; (4) stamp content: entry 0 of the top Via, received always set, rport only when present, SetParam is replace-in-place-or-append; (5) the response hop prefers received/rport (shared with C02). (value-effects, shared with C01/C02): Header.value is stored, outside construction, only with the decoded form of that same header's raw text - the Via the stamp is written into is never an object shared with other messages.",
 		NotDecided: "behaviour of real sockets and the end-to-end claim that the response reaches the true source."})
 }
 
@@ -140,6 +140,9 @@ func runC07(c *Ctx) {
 	c12Expiry(c, "hop-provenance")
 	c12StampBeforeKey(c, "hop-provenance")
 	c07ViaParamsAccepted(c, "stamp-content")
+	// the Via the stamp is written into is this message's own: decoded from this header's own raw text and kept in this
+	// header, never an object shared with other messages (a cache of decoded values) - shared with C01/C02
+	c01ValueEffects(c)
 	// (5) return path: the response hop prefers received/rport (same rule as C02.4)
 	if hf := c.fn("hop-provenance", hopRespFn); hf != nil {
 		c02HopProvenance(c, hf)
@@ -446,6 +449,20 @@ func c07ViaParamsAccepted(c *Ctx, rule string) {
 		for _, rl := range loops {
 			if rl.inLoop(st.Block()) {
 				loop = rl
+			}
+		}
+		// or the list is accumulated in a local variable by a loop and stored afterwards
+		if okAcc, app, fam := accumulatedListFamily(st.Val); okAcc && app && loop == nil {
+			for v := range fam {
+				if in, isIn := v.(ssa.Instruction); isIn {
+					if _, isCall := v.(*ssa.Call); isCall {
+						for _, rl := range loops {
+							if rl.inLoop(in.Block()) {
+								loop = rl
+							}
+						}
+					}
+				}
 			}
 		}
 	}
